@@ -166,6 +166,18 @@ def _save_sensors(module, tree):
     fn = _find_func(cls, "save_sensors", (ast.FunctionDef,))
     body = _strip_doc(fn.body)
     where = "save_sensors"
+    if len(body) == 1 and isinstance(body[0], ast.With):
+        # `with self.<lock>: self._save_sensors()` - saves exclude each other (a lock created in __init__); the
+        # statement order that matters for a message handled DURING a save is that of _save_sensors
+        w = body[0]
+        lock = _src(w.items[0].context_expr) if len(w.items) == 1 and w.items[0].optional_vars is None else None
+        init = _find_func(cls, "__init__", (ast.FunctionDef,))
+        made = [_src(x) for x in init.body]
+        if (lock is None or not lock.startswith("self.") or f"{lock} = threading.Lock()" not in made and f"{lock} = threading.RLock()" not in made
+                or len(w.body) != 1 or _src(w.body[0]) != "self._save_sensors()"):
+            _fail(where + " (locked wrapper)", w)
+        fn = _find_func(cls, "_save_sensors", (ast.FunctionDef,))
+        body = _strip_doc(fn.body)
     # 1. `if not self.need_save: return`
     if not body:
         _fail(where, fn)
